@@ -33,6 +33,8 @@ type ProtModel struct {
 	eval       []float64  // Eigen values
 	alpha      float64    // Alpha
 	usegamma   bool
+	exch       *mat.Dense // exchangeabilities of the model, as published (mat is turned into the rate matrix by InitModel)
+	modelpi    []float64  // aa frequencies of the model, as published
 }
 
 // Initialize a new protein model, given the name of the model as const int:
@@ -69,6 +71,8 @@ func NewProtModel(model int, usegamma bool, alpha float64) (*ProtModel, error) {
 		nil,
 		alpha,
 		usegamma,
+		mat.DenseCopyOf(m),
+		pi,
 	}, nil
 }
 
@@ -112,6 +116,10 @@ func (model *ProtModel) InitModel(aafreqs []float64) error {
 	if aafreqs != nil && len(aafreqs) != ns {
 		return fmt.Errorf("aa frequency array does not have a length of 20")
 	}
+	// The model may be initialized several times: we start again
+	// from the exchangeabilities and frequencies of the model
+	model.mat = mat.DenseCopyOf(model.exch)
+	model.pi = model.modelpi
 	if aafreqs != nil {
 		model.pi = aafreqs
 	}
